@@ -40,8 +40,15 @@ def run(ck):
     client_ops = {"Get", "Head", "GetRange", "Put", "Delete", "SearchV2"}
     on = [c for c in calls if c["cls"]["maint"] and c["m"] in client_ops]
     off = [c for c in calls if not c["cls"]["maint"] and c["m"] in client_ops]
-    if not ck.replay:
-        # anti-vacuity (not a verdict): every maintenance-on request is valid in every respect, i.e. the same request with
+    findings = rpc_util.judge(ck, "TraceObjectRPC", "TraceObjectRPC_c45.cfg", "TraceObjectRPC_strict.cfg", calls, tag="c45")
+    for f in findings:
+        c = f["call"]
+        ck.violation("C45: %s on a node in maintenance: invariant %s false after event #%d %s; call events: %s" % (
+            c["m"], f["invariant"], f["event_index"], json.dumps(f["event"]), json.dumps(c["events"])),
+            {"calls": [{"m": c["m"], "cls": c["cls"]}], "events": c["events"], "raw": c.get("raw"), "invariant": f["invariant"], "tlc": f["tlc"]})
+
+    if not ck.replay and not findings:
+        # anti-vacuity (not a verdict; after the judgement so that it cannot mask a violation): every maintenance-on request is valid in every respect, i.e. the same request with
         # maintenance off reaches handlers / storage / other nodes and succeeds
         for c in off:
             kinds = {e.get("a") for e in c["events"] if e["ev"] == "Eff"}
@@ -55,13 +62,6 @@ def run(ck):
         ck.setcov("control_effect_kinds", eff_kinds)
         if not {"handler", "read", "write", "conn", "remote"} <= set(eff_kinds):
             raise vkit.Infra("control calls do not exercise all effect kinds: %s" % eff_kinds)
-
-    findings = rpc_util.judge(ck, "TraceObjectRPC", "TraceObjectRPC_c45.cfg", "TraceObjectRPC_strict.cfg", calls, tag="c45")
-    for f in findings:
-        c = f["call"]
-        ck.violation("C45: %s on a node in maintenance: invariant %s false after event #%d %s; call events: %s" % (
-            c["m"], f["invariant"], f["event_index"], json.dumps(f["event"]), json.dumps(c["events"])),
-            {"calls": [{"m": c["m"], "cls": c["cls"]}], "events": c["events"], "raw": c.get("raw"), "invariant": f["invariant"], "tlc": f["tlc"]})
 
     ck.setcov("traces_validated_against_impl", len(calls))
     ck.setcov("evaluations", len(calls))
